@@ -10,7 +10,7 @@ META = dict(
     explanation='Differential, real code on both sides, no reference model: a stateful inner pipeline is placed inside a keyed parent (group_by with interleaved keys, roll with tumbling / overlapping / gapped windows, split, time_split); '
                 'taps at the head and tail of the inner pipeline bracket every lifetime (OnCreateMux .. OnCompletedMux). For every lifetime the tail outputs must equal the outputs of the same inner pipeline run standalone '
                 'in a fresh store on exactly the items the head tap saw during that lifetime - for all N symbolic integer items, i.e. for every interleaving of keys and every history of lifetimes on a reused slot. '
-                'A second form feeds hand-built mux event lists through the pipeline with sparse, descending and re-used key indices chosen by the solver.',
+                'A second form feeds hand-built mux event lists through the pipeline with sparse, descending and re-used key indices chosen by the solver; two "long but narrow" forms keep the schedule fixed and the values symbolic: 9 / 17 / 65 keys live at once (growth steps and cache capacities) and 18 / 40 / 260 successive lifetimes on one slot (pools, 8-bit generation counters).',
     bounds=dict(quick='N <= 4 items (|v| <= 2^40), <= 2 groups, >= 2 lifetimes per slot for key-reusing parents; 26 stateful inner pipelines + tee_map zip/combine_latest + one nested level',
                 thorough='N <= 6 for key-reusing parents, N <= 5 otherwise'),
     outside='inner pipelines outside the catalogue; N above the bound; partitioned stores (set_active_partition)',
@@ -41,6 +41,8 @@ INNERS.update({
     'nested_group': [['group', 'mod2', [['first']]], ['count']],
     'nested_group_s': [['group', 'mod3', [['scan_add']]]],          # inner groups of several parents live at once: their indices must not collide
     'take_last': [['take2'], ['last']],
+    'to_list_sum': [['to_list_sum']],
+    'nested_tsplit': [['tsplit', 3, 2, False, True, [['to_list_sum']]]],
     'distinct_count': [['distinct'], ['count']],
 })
 
@@ -120,7 +122,88 @@ def slots(p):
     return mk('slots', [('k0', 'int'), ('k1', 'int'), ('k2', 'int'), ('v0', 'int'), ('v1', 'int'), ('v2', 'int'), ('v3', 'int')], pre, body)
 
 
-FAMILIES = {'confined': confined, 'slots': slots}
+def many_keys(p):
+    """K keys are live at once (hand-built mux events, dense indices 0..K-1: K crosses the growth steps and cache capacities 8 / 16 / 64):
+    key 0 gets two items, then every other key gets one item (touching all of them), then key 0, a solver-chosen key and the last key get one more item;
+    every key's outputs must equal the inner pipeline run standalone on that key's items"""
+    desc, K = INNERS[p['inner']], p['k']
+    pre = ['-2**40 <= v%d <= 2**40' % i for i in range(4)]
+    if 'distinct' in p['inner']:
+        pre = ['0 <= v%d <= 3' % i for i in range(4)]
+
+    def body(a):
+        v0, v1, v2, v3 = a
+        v4 = 5
+        jk = 8 % K
+        keys = [(k,) for k in range(K)]
+        ev = [rs.OnCreateMux(k) for k in keys]
+        per = {k: [] for k in range(K)}
+
+        def push(k, v):
+            ev.append(rs.OnNextMux((k,), v))
+            per[k].append(v)
+        push(0, v0)
+        push(0, v1)
+        for k in range(1, K):
+            push(k, (v2 if k == 1 else k) if 'distinct' not in p['inner'] else (v2 % 4 if k == 1 else k % 4))       # only key 1 gets a symbolic item here: the others are touched with concrete ones
+        push(0, v3)
+        push(jk, v4)
+        push(K - 1, v4)
+        push(0, v1)
+        ev += [rs.OnCompletedMux(k) for k in keys]
+        log, err = D.mux_events(ev, C.build(desc)[0])
+        outs, ok = D.lifetimes(log)
+        if err or not ok or len(outs) != K:
+            return fail(inner=C.show(desc), keys=K, log=log[:40], err=err)
+        for k in (0, jk, K - 1, 1, K // 2):
+            exp = standalone(per[k], desc)
+            if outs[k] != exp:
+                return fail(inner=C.show(desc), live_keys=K, key=k, key_items=per[k], observed=outs[k], expected=exp)
+        return True
+    return mk('many_keys', [('v%d' % i, 'int') for i in range(4)], pre, body)
+
+
+def many_lifetimes(p):
+    """L successive lifetimes on ONE key slot (create, one or two items, complete): L crosses pool sizes and 8-bit generation counters (18, 40, 260);
+    the first, a middle, and the last lifetimes carry symbolic items; every lifetime's outputs equal the standalone run on its items"""
+    desc, L = INNERS[p['inner']], p['l']
+    pre = ['-2**40 <= v%d <= 2**40' % i for i in range(4)]
+    if 'distinct' in p['inner']:
+        pre = ['0 <= v%d <= 3' % i for i in range(4)]
+
+    def body(a):
+        v0, v1, v2, v3 = a
+        key = (3,)
+        ev = []
+        lifes = []
+        for l in range(L):
+            if l == 0:
+                its = [v0, v1]
+            elif l == L // 2:
+                its = [v2]
+            elif l == L - 2:
+                its = []                     # an empty lifetime just before the last one
+            elif l == L - 1:
+                its = [v3, v0]
+            else:
+                its = [l % 4, (l + 1) % 4] if l % 3 else [l % 4]
+            lifes.append(its)
+            ev.append(rs.OnCreateMux(key))
+            ev += [rs.OnNextMux(key, x) for x in its]
+            ev.append(rs.OnCompletedMux(key))
+        log, err = D.mux_events(ev, C.build(desc)[0])
+        outs, ok = D.lifetimes(log)
+        if err or not ok or len(outs) != L:
+            return fail(inner=C.show(desc), lifetimes=L, err=err, wellformed=ok, seen=len(outs))
+        for l in (0, 1, L // 2, L - 3, L - 2, L - 1):
+            exp = standalone(lifes[l], desc)
+            if outs[l] != exp:
+                return fail(inner=C.show(desc), lifetimes=L, lifetime=l, lifetime_items=lifes[l], observed=outs[l], expected=exp)
+        return True
+    return mk('many_lifetimes', [('v%d' % i, 'int') for i in range(4)], pre, body)
+
+
+FAMILIES = {'confined': confined, 'slots': slots, 'many_keys': many_keys, 'many_lifetimes': many_lifetimes}
 
 
 KEYPAT = [[5, 5, 5], [5, 2, 5], [5, 2, 2], [0, 5, 2], [2, 0, 0]]
@@ -159,6 +242,21 @@ def obligations(tier, seed):
                 obs.append(Ob(PROP, 'slots', dict(inner=inner, keys=kp), budget=b * 3 if heavy >= 3 else b, bound=dict(lifetimes=3, key_indices=kp, items=4)))
         elif not inner.startswith('nested') or not q:
             obs.append(Ob(PROP, 'slots', dict(inner=inner), budget=b, bound=dict(lifetimes=3, key_indices='solver-chosen from {0,2,5}', items=4)))
+    wide = ('scan_add', 'lag1_sum', 'duc', 'batch2_sum', 'tee_zip', 'tee_cl', 'nested_split', 'distinct', 'take2', 'pad_start_nv', 'start_with', 'last', 'to_list_sum', 'nested_tsplit')
+    core8 = ('scan_add', 'lag1_sum', 'duc', 'batch2_sum', 'tee_zip', 'nested_split', 'last', 'nested_tsplit')
+    for inner in (core8 if q else wide):
+        ks = (9, 17) if q else (9, 10, 17, 33, 65, 129)
+        if q and inner in ('scan_add', 'lag1_sum', 'batch2_sum'):
+            ks = (9, 17, 65)
+        if inner == 'nested_tsplit':
+            ks = (9,) if q else (9, 17)
+        for k in ks:
+            obs.append(Ob(PROP, 'many_keys', dict(inner=inner, k=k), budget=b * 2, group='many live keys', bound=dict(live_keys=k, inner=C.show(INNERS[inner]), items='symbolic values, fixed schedule')))
+        ls = (18,) if q else (18, 40, 260)
+        if q and inner == 'tee_zip':
+            ls = (18, 40)
+        for l in ls:
+            obs.append(Ob(PROP, 'many_lifetimes', dict(inner=inner, l=l), budget=b * 2 if l < 100 else b * 6, group='many lifetimes on one slot', bound=dict(lifetimes=l, inner=C.show(INNERS[inner]))))
     obs.append(Ob(PROP, 'confined', dict(parent='roll22', inner='tee_zip', n=4, _twin='reach'), budget=60, expect='refute'))
     obs.append(Ob(PROP, 'slots', dict(inner='scan_add', _twin='reach'), budget=60, expect='refute'))
     return obs
